@@ -407,8 +407,17 @@ class _Gen:
         if k == "set": return ["set", r.choice(["BTreeSet", "BTreeSet", "HashSet"]), self.hashable(depth - 1)]
         if k == "tuple":
             n = r.choice([1, 2, 2, 2, 3, 3, 4])
-            return ["tuple", [self.te(i, depth - 1, guarded) for _ in range(n)]]
-        if k == "array": return ["array", self.te(i, depth - 1, guarded), r.randint(1, 4)]
+            ts = [self.te(i, depth - 1, guarded) for _ in range(n)]
+            if "recursion" in F and "box" in F and not transparent and r.random() < 0.25:
+                # the recursive link inside a tuple: (.., Option<Box<Self or a later type>>, ..)
+                t = self.ref_to(i, True)
+                if t and not self.may_be_null(t, i): ts[r.randrange(n)] = ["option", ["box", t]]
+            return ["tuple", ts]
+        if k == "array":
+            if "recursion" in F and "box" in F and not transparent and r.random() < 0.15:
+                t = self.ref_to(i, True)
+                if t and not self.may_be_null(t, i): return ["array", ["option", ["box", t]], r.randint(1, 3)]
+            return ["array", self.te(i, depth - 1, guarded), r.randint(1, 4)]
         raise ValueError(k)
 
     # ---- fields
@@ -431,6 +440,12 @@ class _Gen:
                 f["mode"] = "default_fn"; f["dvalue"] = self.scalar_value(f["ty"], nonzero=True)
             elif "default_fn" in F and roll < 0.66 and f["ty"] == ["vec", ["int", "u8"]]:
                 f["mode"] = "default_fn"; f["dvalue"] = [1, 2]
+            elif "default_fn" in F and roll < 0.80 and k == "option" and f["ty"][1][0] in ("int", "string", "bool"):
+                # Some(value) as the default of a nullable member, the ZERO value of the wrapped type included
+                zero = {"int": 0, "string": "", "bool": False}[f["ty"][1][0]]
+                f["mode"] = "default_fn"; f["dvalue"] = zero if r.random() < 0.6 else self.scalar_value(f["ty"][1], nonzero=True)
+            elif "default_fn" in F and roll < 0.84 and k in ("int", "string", "bool"):
+                f["mode"] = "default_fn"; f["dvalue"] = {"int": 0, "string": "", "bool": False}[k]      # a function returning the zero value
             used.add(_sanitized(f["rename"] if f["rename"] is not None else ident))
             out.append(f)
         return out
@@ -469,7 +484,12 @@ class _Gen:
             d["fields"] = self.dedupe_wires(d["fields"], d["rename_all"])
             return d
         if kind == "tuple_struct":
-            return {"kind": kind, "name": name, "tys": [self.te(i, 1) for _ in range(r.randint(2, 3))]}
+            tys = [self.te(i, 1) for _ in range(r.randint(2, 3))]
+            if "recursion" in F and "box" in F and r.random() < 0.3:
+                # a recursive tuple struct: struct History(u32, Option<Box<History>>)
+                t = self.ref_to(i, True)
+                if t and not self.may_be_null(t, i): tys[r.randrange(1, len(tys))] = ["option", ["box", t]]
+            return {"kind": kind, "name": name, "tys": tys}
         if kind == "newtype_struct":
             return {"kind": kind, "name": name, "ty": self.te(i, 2, False, True)}
         if kind == "unit_struct":
@@ -508,7 +528,7 @@ class _Gen:
             elif k == "tuple":
                 v["tys"] = [self.te(i, 1, False) for _ in range(r.randint(2, 3))]
             elif k == "struct" and lookalike:
-                ty = self.te(i, 2, guarded)
+                ty = self.te(i, 2, False)
                 f = {"ident": shared, "rename": None, "ty": ty, "mode": "req"}
                 roll = r.random()
                 if ty[0] in ("option", "vec", "map") and "skip" in F and roll < 0.5: f["mode"] = "default_skip"
